@@ -151,13 +151,13 @@ Section TInv.
     forall i j, (i < n)%nat -> (j < n)%nat -> uncovered_zero Z 0 Z.eqb s i j = false.
 
   Definition T1 (s : st) : Prop := P1 n M0 s.
-  Definition T2 (s : st) : Prop := P2 n M0 s /\ shiftedD s.
-  Definition T3 (s : st) : Prop := P3 n M0 s /\ shiftedD s.
+  Definition T2 (s : st) : Prop := P2 n M0 s.
+  Definition T3 (s : st) : Prop := P3 n M0 s.
   Definition T4 (s : st) : Prop :=
-    P4 n M0 s /\ shiftedD s /\ (kc s < n)%nat /\ (cnt (sRC s) + cnt (sCC s) = kc s)%nat
+    P4 n M0 s /\ (kc s < n)%nat /\ (cnt (sRC s) + cnt (sCC s) = kc s)%nat
     /\ cov_prime s /\ ranked s.
   Definition T5 (s : st) : Prop :=
-    P5 n M0 s /\ shiftedD s /\ (kc s < n)%nat /\ star_cov s
+    P5 n M0 s /\ (kc s < n)%nat /\ star_cov s
     /\ (forall i j, gM s i j = 2%nat -> ccov s j = false) /\ cov_prime s
     /\ (exists rank, prime_rank rank s).
 
